@@ -317,11 +317,18 @@ C03_HISTORIES = ["none", "read_all", "body", "style", "meta", "add_file", "del_p
 C03_CONFIGS = [("zip", "path"), ("zip", "bytesio"), ("folder", "path")]
 
 
+# edits applied to the reopened document just before the second, in-place save (the target already exists and
+# holds the parts of the first save: nothing of it may survive that the document no longer has)
+C03_LATE_HISTORIES = ["del_part@2", "add_file@2"]
+
+
 def _c03_gen(con, sigcase, count, seed):
     quick = count <= 200
     for src in _source_list(quick):
-        for hist in C03_HISTORIES:
+        for hist in C03_HISTORIES + C03_LATE_HISTORIES:
             for pack, target in C03_CONFIGS:
+                if hist.endswith("@2") and target == "bytesio":
+                    continue     # the second save is "in place": it needs a path
                 yield dict(source=src, history=hist, packaging=pack, target=target, cycles=2)
     # one-cycle cases: the same alphabet on the four templates (cheap, keeps the 1-cycle shape in scope)
     for src in ["template:" + t for t in TEMPLATE_FILES]:
@@ -419,7 +426,8 @@ def _c03_call(con, fn, argvals, labels):
         try:
             from odfdo import Document
             doc, info = _open_source(src)
-            added, check = _c03_edit(doc, hist, info, td)
+            late = hist.endswith("@2")
+            added, check = (set(), None) if late else _c03_edit(doc, hist, info, td)
         except Exception as e:  # noqa
             res.checked = 1
             fail(("ensures:no_error", f"open/edit raised {type(e).__name__}: {e}"))
@@ -430,6 +438,10 @@ def _c03_call(con, fn, argvals, labels):
             _doc_kind(info["mimetype"]), "g"))
         for cyc in range(1, cycles + 1):
             try:
+                if late and cyc == 2:
+                    added, check = _c03_edit(doc, hist[:-2], info, td)
+                    expected_names = ({n for n in info["files"]} | set(added)) - info.get("removed", set())
+                    first_saved = None
                 snap = _snapshot(doc)
                 if target == "bytesio":
                     buf = io.BytesIO()
@@ -561,7 +573,8 @@ C04_HISTORIES = [
     "plain", "add_path", "add_path_twice", "add_same_content_two_names", "add_io", "add_io_twice", "add_path_then_io",
     "add_two_different", "add_then_del", "del_existing", "image_frame", "image_frame_twice", "merge_styles",
     "merge_styles_twice", "clone", "add_then_clone", "save_reopen_add", "add_save_reopen_add_same", "add_save_save",
-    "del_save_reopen_save",
+    "del_save_reopen_save", "clone_add_save_original", "add_clone_del_save_clone", "clone_del_save_original",
+    "add_del_add_same",
 ]
 C04_MERGE_FROM = "background.odp"     # has a draw:fill-image in styles.xml, so merge copies a picture + manifest entry
 
@@ -732,6 +745,19 @@ def _c04_call(con, fn, argvals, labels):
                 save(doc.clone, "clone")
             elif hist == "add_then_clone":
                 doc.add_file(png); save(doc.clone, "add_file; clone"); save(doc, "add_file (original)")
+            elif hist == "clone_add_save_original":
+                twin = doc.clone; twin.add_file(png); save(doc, "clone.add_file; save original"); save(twin, "the clone")
+            elif hist == "add_clone_del_save_clone":
+                uri = doc.add_file(png); twin = doc.clone; doc.del_part(uri)
+                save(twin, "add_file; clone; original.del_part; save clone"); save(doc, "the original")
+            elif hist == "clone_del_save_original":
+                part = existing_part()
+                if part is None:
+                    res.in_domain = False
+                    return res
+                twin = doc.clone; twin.del_part(part); save(doc, "clone.del_part; save original"); save(twin, "the clone")
+            elif hist == "add_del_add_same":
+                uri = doc.add_file(png); doc.del_part(uri); doc.add_file(png); save(doc, "add_file; del_part; add_file(same)")
             elif hist == "save_reopen_add":
                 h = save(doc, "unmodified"); d2 = Document(h); d2.add_file(png); save(d2, "reopen; add_file")
             elif hist == "add_save_reopen_add_same":
@@ -767,11 +793,12 @@ contract(
     gen=_c04_gen, call_native=_c04_call,
     bounded=dict(
         scope="sources {4 built-in templates} + {8 named samples (quick) / all 37 ODF zips of tests/samples (thorough)}, every "
-              "source itself checked coherent first, x 20 histories over {new from template, open sample, add_file(path) "
+              "source itself checked coherent first, x 24 histories over {new from template, open sample, add_file(path) "
               "once / twice / same content under two file names, add_file(BytesIO) once / twice / after path, two different "
               "files, add then del_part, del_part of an existing part, image frame (same image once / twice), "
               "merge_styles_from(background.odp) once / twice, clone, add_file then clone, save-reopen-add, "
-              "add-save-reopen-add same, save twice, del-save-reopen-save} x target {path, BytesIO}; every zip written "
+              "add-save-reopen-add same, save twice, del-save-reopen-save, clone then add_file on the clone / del_part on the original or the "
+              "clone with both documents saved, add-del-add of the same content} x target {path, BytesIO}; every zip written "
               "along the history is checked",
         reason="zipfile entry list and lxml manifest are outside the executor's fragment; COH(doc) invariant of DESIGN C04 "
                "is not closed"),
